@@ -375,7 +375,45 @@ func runC18(w *World, tier string) (bool, interface{}) {
 				log := relabelledLog(w, m.DkgRoundID, id)
 				var env storage.Message
 				how := ""
-				switch w.Tape.Choose(4, "reinitHow") {
+				switch w.Tape.Choose(5, "reinitHow") {
+				case 4:
+					// a log whose opening proposal is there but is not accepted (no threshold, no
+					// participants left, undecodable, or addressed to some other node): no round comes
+					// of it, so whatever follows - a broadcast signature first of all - belongs to no
+					// round. Such a reinitialisation is refused and leaves nothing behind.
+					var rest []storage.Message
+					entry := []map[string]interface{}{{"File": "x", "BatchID": "some-batch", "MessageID": "some-msg", "SrcPayload": []byte("p"), "Signature": bytes.Repeat([]byte{7}, 96), "Username": w.Nodes[by].Name, "DKGRoundID": id}}
+					sr := storage.Message{DkgRoundID: id, Event: "signature_reconstructed", SenderAddr: w.Nodes[by].Name}
+					sr.Data, _ = json.Marshal(entry)
+					why := ""
+					for _, e := range log {
+						if e.Event != "event_sig_proposal_init" {
+							rest = append(rest, e)
+							continue
+						}
+						x := e
+						var req map[string]json.RawMessage
+						_ = json.Unmarshal(e.Data, &req)
+						switch w.Tape.Choose(4, "proposalRefusedBecause") {
+						case 0:
+							req["SigningThreshold"] = json.RawMessage("0")
+							x.Data, _ = json.Marshal(req)
+							why = "threshold-zero"
+						case 1:
+							req["Participants"] = json.RawMessage("[]")
+							x.Data, _ = json.Marshal(req)
+							why = "no-participants"
+						case 2:
+							x.Data = []byte("{\"Participants\":")
+							why = "undecodable"
+						default:
+							x.RecipientAddr = "somebody else"
+							why = "addressed-to-another-node"
+						}
+						rest = append(rest, x, sr)
+					}
+					env = reinitEnvelope(w, by, id, thr, parts, rest)
+					how = "reinit-log-with-a-refused-opening-proposal/" + why
 				case 3:
 					// a log that never opens the round it names (the opening proposal is missing):
 					// broadcast signatures and the round's other messages for a round that does
